@@ -631,3 +631,31 @@ PROPS["C04"] = dict(
           "source and orc_executor_emulate; a source gcc rejects is a violation; regenerated emulator files equal the checked-in ones."),
     assumptions=["gcc 12.2 -std=gnu11 -fno-fast-math -ffp-contract=off stands for 'a C compiler'"],
 )
+
+PROPS["C18"] = dict(
+    variant="plain",
+    sources=ENGINE + ["engine/cgen.c", "engine/refsem.c", "engine/refprog.c", "props/c18_float.c"],
+    ldflags=["-ldl"],
+    set=CG_SETS,
+    excludes=["const-two-lane-sizes"],   # known finding C02-const-two-lane-sizes (shared load cache) is kept out by construction
+    level="exploration",
+    technique="enumeration of structured operand cross products per float opcode/form plus property-based float programs (rapidcheck), every path (emulation, avx, sse, gcc-compiled generated C) compared bit for bit with an independent host-IEEE flush-to-zero reference that encodes the statement's NaN and +-0 freedoms",
+    level_text=("every float/double opcode x every operand form x the full cross product of a structured operand table (about 180 single and "
+                "180 double values: zeros, denormals, smallest-normal neighbours, powers of two, integers near 2^24/2^31/2^53, ties, "
+                "infinities, quiet/signalling NaNs, fixed pseudo-random normals) in 64x64 blocks - exhaustive over that table when the stage "
+                "completes (thorough); the quick tier covers the blocks it reaches within its budget; plus generated float-only programs "
+                "on table-drawn arrays"),
+    level_note=("trusted base: host SSE arithmetic with MXCSR=0x1f80 as IEEE-754 binary32/binary64, engine/refprog.c, gcc 12 for the "
+                "generated C path; exception flags are not judged; x87 is not involved"),
+    stages=[
+        dict(name="enum-operand-blocks", mode="enum", quick=dict(budget=60), thorough=dict(budget=3000)),
+        dict(name="rc-float-programs", mode="rc", quick=dict(cases=6000, max_size=400, budget=20), thorough=dict(cases=300000, max_size=600, budget=900)),
+    ],
+    rule=("enumerated case = (opcode, operand form, 64x64 block of the operand-table product); generated case = (float-only program of 1..10 "
+          "instructions, n, m, misalignment, table-drawn array contents). inner_evaluations = destination elements x paths compared. "
+          "Non-trivial: at least two paths ran and at least one element's computation met a zero, denormal, infinity, NaN, flush, "
+          "saturation or tie. Oracle: every path's destination bytes equal the reference except lanes the statement frees (any NaN "
+          "accepted where float arithmetic had a NaN operand or an invalid operation; min/max of numerically equal operands and NaN "
+          "converted to integer are not judged)."),
+    assumptions=["default target flags (ORC_TARGET_FAST_NAN / FAST_DENORMAL relax the semantics by design and are not used)"],
+)
